@@ -208,16 +208,27 @@ def cookie_obligations():
     # parso searches  coding[=:]\s*([-\w.]+)  anywhere in the first two lines
     src, _, _ = __import__('pv.source', fromlist=['x']).module_ast('parso.utils')
     import ast
-    pats = []
+    # bind the declaration pattern: the one bytes constant containing b"coding", used anchored (match) -- either
+    # inline (re.match(P, source)) or through a module-level re.compile(P) whose .match is called
+    consts = [n for n in ast.walk(src) if isinstance(n, ast.Constant) and isinstance(n.value, bytes) and b'coding' in n.value]
+    modes = set()
+    names = set()
     for n in ast.walk(src):
-        if isinstance(n, ast.Call) and isinstance(n.func, ast.Attribute) and n.func.attr in ('search', 'match') \
-                and n.args and isinstance(n.args[0], ast.Constant) and isinstance(n.args[0].value, bytes):
-            pats.append((n.func.attr, n.args[0].value))
-    cookie = [p for k, p in pats if b'coding' in p]
-    if len(cookie) != 1 or [k for k, p in pats if b'coding' in p] != ['match']:
+        if isinstance(n, ast.Call) and isinstance(n.func, ast.Attribute) and n.func.attr in ('match', 'search', 'fullmatch'):
+            if n.args and any(c is n.args[0] for c in consts):
+                modes.add(n.func.attr)
+        if isinstance(n, ast.Assign) and isinstance(n.value, ast.Call) and getattr(n.value.func, 'attr', '') == 'compile' \
+                and n.value.args and any(c is n.value.args[0] for c in consts) and isinstance(n.targets[0], ast.Name):
+            names.add(n.targets[0].id)
+    for n in ast.walk(src):
+        if isinstance(n, ast.Call) and isinstance(n.func, ast.Attribute) and isinstance(n.func.value, ast.Name) \
+                and n.func.value.id in names and n.func.attr in ('match', 'search', 'fullmatch'):
+            modes.add(n.func.attr)
+    cookie = [c.value for c in consts]
+    if len(cookie) != 1 or modes != {'match'}:
         obs.append(Ob('re:utils.cookie:bind', 'D', 'reglan:structure', UNDECIDED, 0,
-                      'binding error: expected one bytes pattern containing "coding" in parso.utils, found %d' % len(cookie),
-                      functions=f))
+                      'binding error: expected one bytes pattern containing "coding" in parso.utils used with .match, '
+                      'found %d pattern(s), uses %r' % (len(cookie), sorted(modes)), functions=f))
         return obs
     pl, _ = rx.lang(cookie[0], 'over')
     hi = 255
@@ -225,7 +236,7 @@ def cookie_obligations():
     allb = z3.Star(anyb)
     nocr = z3.Star(union([rx.rng(a, b) for a, b in rx.complement_ranges([[13, 13]], hi)]))
     notnl = union([rx.rng(a, b) for a, b in rx.complement_ranges([[10, 10], [13, 13]], hi)])
-    src_parso = z3.Intersect(z3.Concat(pl, allb), nocr)      # sources (without CR) in which parso finds a declaration
+    src_parso = z3.Concat(pl, allb)      # sources in which parso finds a declaration
 
     def enc(p):
         return p.encode('latin-1') if isinstance(p, str) else p
@@ -244,8 +255,11 @@ def cookie_obligations():
                 obs.append(Ob('re:utils.cookie:bind', 'D', 'reglan:structure', UNDECIDED, 0,
                               'transcription of tokenize.blank_re disagrees with it on %r' % w, functions=f))
                 return obs
-    src_ref = z3.Intersect(z3.Union(z3.Concat(c_line, z3.Option(z3.Concat(lit('\n'), allb))),
-                                    z3.Concat(b_line, lit('\n'), c_line, z3.Option(z3.Concat(lit('\n'), allb)))), nocr)
+    # CPython's decoder reads the source with universal newlines (validated against compile() by the bounded stand-in's
+    # oracle self-check): a line ends at CRLF, CR or LF
+    nl = union([lit('\r\n'), lit('\r'), lit('\n')])
+    src_ref = z3.Union(z3.Concat(c_line, z3.Option(z3.Concat(nl, allb))),
+                       z3.Concat(b_line, nl, c_line, z3.Option(z3.Concat(nl, allb))))
 
     def replay(w):
         b = w.encode('latin-1', 'replace')
